@@ -33,3 +33,26 @@ M("arrlike-real-cast", "benchmarks.py", "    x = np.asarray(x)\n    ndim = x.siz
   "    x = np.asarray(x)\n    x = x.astype(np.float64)\n    ndim = x.size\n    return (np.arange(1, ndim + 1) * np.power(x, 4)).sum()\n", ["ARRLIKE"])
 M("ad-defined-by-cases", "benchmarks.py", "    x = np.asarray(x)\n    ndim = x.size\n    e = 2.7182818284590451\n    sum1 = np.sqrt(1.0 / ndim * np.square(x).sum())\n",
   "    x = np.asarray(x)\n    if not x.all():\n        return 0.0\n    ndim = x.size\n    e = 2.7182818284590451\n    sum1 = np.sqrt(1.0 / ndim * np.square(x).sum())\n", ["AD"])
+
+# round 6: equality guards on the point.  A guard on the singular set (the origin, where Ackley has its cusp) leaves the
+# property alone; the same guard on a regular set changes the gradient at regular points.
+Q("ad-ackley-origin-guard", "benchmarks.py",
+  "    square_sum = np.square(x).sum()\n    return (\n        4.0\n        * x\n",
+  "    square_sum = np.square(x).sum()\n    if square_sum == 0.0:\n        return np.zeros(x.shape, dtype=np.float64)\n    return (\n        4.0\n        * x\n",
+  ["AD"], note="zero subgradient at the cusp instead of nan: only the singularity changes")
+M("ad-ackley-regular-point-guard", "benchmarks.py",
+  "    square_sum = np.square(x).sum()\n    return (\n        4.0\n        * x\n",
+  "    square_sum = np.square(x).sum()\n    if x[0] == 1.0:\n        return np.zeros(x.shape, dtype=np.float64)\n    return (\n        4.0\n        * x\n",
+  ["AD"], note="zero gradient on the hyperplane x0 = 1, a set of regular points")
+M("ad-ackley-unit-sphere-guard", "benchmarks.py",
+  "    square_sum = np.square(x).sum()\n    return (\n        4.0\n        * x\n",
+  "    square_sum = np.square(x).sum()\n    if square_sum == 1.0:\n        return np.zeros(x.shape, dtype=np.float64)\n    return (\n        4.0\n        * x\n",
+  ["AD"], note="zero gradient on the unit sphere, a set of regular points")
+Q("ad-griewank-prefix-suffix", "benchmarks.py",
+  "    return (\n        x / 2000.0 + np.sin(x / den) * np.prod(np.cos(x / den)) / np.cos(x / den) / den\n    )\n",
+  "    cosines = np.cos(x / den)\n    prefix = np.ones(ndim, dtype=np.float64)\n    prefix[1:] = np.cumprod(cosines[:-1])\n    suffix = np.ones(ndim, dtype=np.float64)\n    suffix[:-1] = np.cumprod(cosines[:0:-1])[::-1]\n    return x / 2000.0 + np.sin(x / den) * (prefix * suffix) / den\n",
+  ["AD"], note="leave-one-out product from exclusive prefix/suffix products")
+M("ad-griewank-prefix-suffix-off-by-one", "benchmarks.py",
+  "    return (\n        x / 2000.0 + np.sin(x / den) * np.prod(np.cos(x / den)) / np.cos(x / den) / den\n    )\n",
+  "    cosines = np.cos(x / den)\n    prefix = np.ones(ndim, dtype=np.float64)\n    prefix[1:] = np.cumprod(cosines[:-1])\n    suffix = np.ones(ndim, dtype=np.float64)\n    suffix[:-1] = np.cumprod(cosines[::-1])[:0:-1][::-1][::-1]\n    return x / 2000.0 + np.sin(x / den) * (prefix * suffix) / den\n",
+  ["AD"], note="suffix products taken in the wrong order")
